@@ -167,7 +167,7 @@ def collect(ctx: Ctx, cs, ver=2):
             before = expose(d)
             g = corrupt(f, pos, sub, fix)
             ac.replies = [g]
-            if rich and k % 14 in (5, 13):
+            if rich and k % 14 in (5, 13) and (ctx.quick or k % 9 == 0):       # (thorough: a ninth of them - each costs nine read timeouts of loop steps)
                 # only SOME of the refresh's queries are answered (with the corrupted frame), the others not at all - the last one among them
                 pat = ["gggs", "gsss", "sggs", "ggss"][(k // 14) % 4]
                 ac.script = [e for c in pat for e in ([[g]] if c == "g" else [[], [], []])]      # an unanswered query is transmitted three times
